@@ -106,7 +106,7 @@ func (w *World) findSentinels() {
 		for _, m := range p.Members {
 			if g, ok := m.(*ssa.Global); ok {
 				t := g.Type().(*types.Pointer).Elem()
-				if isErrorType(t) && stores[g] == 1 && !bad[g] {
+				if isErrorLike(t) && stores[g] == 1 && !bad[g] && strings.HasPrefix(g.Name(), "Err") {
 					w.sentinels[g] = true
 				}
 			}
@@ -158,7 +158,7 @@ func newExec(w *World, fn *ssa.Function, key string, props []string, discover bo
 	x := &Exec{w: w, em: NewEmitter(), top: fn, trusted: map[string]bool{}, discover: discover,
 		loopMods: map[*ssa.BasicBlock]map[string]bool{}, strConst: map[string]string{}, sumFns: map[string]string{},
 		typeTags: map[string]int{}, ordinals: map[string]int{}, props: props, fnKey: key, sumInst: map[string]bool{},
-		usedContracts: map[string]bool{}, loopRoots: map[*ssa.BasicBlock]map[string][]ssa.Value{}, opaque: map[string]*opaqueInfo{}, bindFail: map[string]bool{}}
+		usedContracts: map[string]bool{}, loopRoots: map[*ssa.BasicBlock]map[string][]ssa.Value{}, opaque: map[string]*opaqueInfo{}, bindFail: map[string]bool{}, guardsSeen: map[string]bool{}}
 	return x
 }
 
@@ -194,6 +194,12 @@ func (w *World) verifyFunc(c *Contract) (res *FnResult) {
 	x.loopMods = d.loopMods
 	x.loopRoots = d.loopRoots
 	x.runTop(fn, c)
+	for _, g := range c.Guards {
+		if !x.guardsSeen[g.Name] {
+			res.Err = fmt.Errorf("contract-binding in %s: guard[%s] matches no call site", c.Key, g.Name)
+			return
+		}
+	}
 	res.Obls = x.obls
 	for t := range x.trusted {
 		res.Trusted = append(res.Trusted, t)
@@ -417,6 +423,10 @@ func (fr *Frame) modCell(m *Node, env *SpecEnv) string {
 		case "mapof":
 			v := env.force(env.eval(m.Args[1]))
 			return v.Term
+		case "pointee":
+			if loc := fr.pointeeLoc(m, env); loc != nil && loc.Kind == LRef {
+				return loc.Base
+			}
 		}
 		return ""
 	}
@@ -425,6 +435,23 @@ func (fr *Frame) modCell(m *Node, env *SpecEnv) string {
 		return v.Loc.Base
 	}
 	return ""
+}
+
+// pointeeLoc: the location an interface-wrapped or plain pointer argument points to.
+func (fr *Frame) pointeeLoc(m *Node, env *SpecEnv) *Loc {
+	v := env.force(env.eval(m.Args[1]))
+	if v.Pointee != nil {
+		return v.Pointee
+	}
+	if kindOf(v.T) == KPtr {
+		if v.Loc != nil {
+			return v.Loc
+		}
+		if pt, ok := v.T.Underlying().(*types.Pointer); ok {
+			return &Loc{Kind: LRef, Base: v.Term, Root: pt.Elem(), T: pt.Elem()}
+		}
+	}
+	return nil
 }
 
 // resolveModifies maps a modifies item to heap names.
@@ -442,6 +469,19 @@ func (fr *Frame) resolveModifies(m *Node, env *SpecEnv) []string {
 			for _, eh := range elemHeaps(elemType(v.T)) {
 				out = append(out, eh.name)
 				fr.cur.sorts[eh.name] = eh.sort
+			}
+			return out
+		case "pointee":
+			loc := fr.pointeeLoc(m, env)
+			if loc == nil {
+				sfail("modifies pointee(%s): the argument's target is not statically known", m.Args[1])
+			}
+			for _, lf := range leavesOf(loc.T) {
+				n, inner := loc.heapFor(lf.Path)
+				out = append(out, n)
+				if len(inner) == 0 {
+					fr.cur.sorts[n] = heapSort(loc.Kind, lf.Sort)
+				}
 			}
 			return out
 		case "mapof":
@@ -501,4 +541,17 @@ func (fr *Frame) special(fn *ssa.Function, full string, args []*SVal, rt types.T
 		return true
 	}
 	return false
+}
+
+// isErrorLike: the error interface or a named interface type whose method set is that of error
+// (e.g. gnet.DisconnectReason).
+func isErrorLike(t types.Type) bool {
+	if isErrorType(t) {
+		return true
+	}
+	it, ok := t.Underlying().(*types.Interface)
+	if !ok {
+		return false
+	}
+	return types.Identical(it, types.Universe.Lookup("error").Type().Underlying())
 }
